@@ -22,9 +22,9 @@ def universe(ctx, name, maxrules, maxrhs, stride, prec=False):
     return f
 
 
-def random_grammars(ctx, n, prec=False, name="rnd"):
+def random_grammars(ctx, n, prec=False, name="rnd", kind=None):
     f = ctx.path("%s.ndjson" % name)
-    ctx.vhrun(["lalr-random", str(n), f] + (["prec"] if prec else []))
+    ctx.vhrun(["lalr-random", str(n), f] + (["prec"] if prec else []) + ([kind] if kind else []))
     return f
 
 
